@@ -24,7 +24,7 @@ import rewrites
 from common import Check, run_tlc, run_oalv_parallel
 
 
-def variants_of(prog, rng, tier, all_perms=False):
+def variants_of(prog, rng, tier, all_perms=False, all_abstractions=False):
     """(rewrite name, program, render options)"""
     out = []
     for st in (1, 2, 3):
@@ -57,6 +57,11 @@ def variants_of(prog, rng, tier, all_perms=False):
         k = 0
         for p, n, b, cx in eps:
             if cx not in ("expr", "rhs") or n["k"] in ("var", "prim", "lit"):
+                continue
+            if all_abstractions:
+                # the small directed families: every expression with every closed sub-expression abstracted out of it
+                for q in (rewrites.abstract_subterm(prog, p, n, b, None) or [])[:12]:
+                    out.append(("abstract-subterm", q, {}))
                 continue
             q = rewrites.abstract_subterm(prog, p, n, b, rng)
             if q is not None:
@@ -128,7 +133,7 @@ def run(tier):
     for c in sel:
         cases.append(case_of(c["prog"], {}))
         meta.append((c, "original", None))
-        for name, q, opts in variants_of(c["prog"], rng, tier, all_perms=(c.get("pos") == "recann")):
+        for name, q, opts in variants_of(c["prog"], rng, tier, all_perms=(c.get("pos") == "recann"), all_abstractions=(c.get("pos") in ("recinst", "dynscope"))):
             cases.append(case_of(q, opts))
             meta.append((c, name, None))
     for key, cs in groups.items():
